@@ -30,7 +30,7 @@ GENERATED = {"display", "play", "pid", "erno", "errnum", "joy0x", "joy0y", "joy1
 KINDS4 = ("ns", "ss", "na", "sa")
 
 
-def name_program(nm, mask=15):
+def name_program(nm, mask=15, dim=True):
     """mask selects which of the four variables built on the name (numeric/string scalar/array) occur at all: with a
     subset, an identifier of an absent kind showing up in the output is an identity error."""
     N, S = nm, nm + "$"
@@ -47,6 +47,8 @@ def name_program(nm, mask=15):
             L.append((num, st))
 
     dims = ([(N, [5], ["5"])] if na else []) + ([(S, [5], ["5"])] if sa else [])
+    if not dim:
+        dims = []       # the arrays are never DIMensioned (implicit 0..10)
     line(10, ("dim", dims) if dims else None)
     line(20, ("let", v(N), one, False) if ns else None, ("let", v(S), ("str", "A"), False) if ss else None)
     line(30, ("let", a(N, one), ("bin", "+", v(N) if ns else two, a(N, two)), False) if na else None,
@@ -99,11 +101,11 @@ def run_case(case):
     obs = {"counters": {}, "viols": [], "sets": {}}
     if case["kind"] == "name":
         nm = case["name"]
-        obs["key"] = "name|%s|%d" % (nm, case.get("mask", 15))
+        obs["key"] = "name|%s|%d|%s|%s" % (nm, case.get("mask", 15), case.get("dim", True), case.get("storage", 32))
         mask = case.get("mask", 15)
-        prog = name_program(nm, mask)
+        prog = name_program(nm, mask, case.get("dim", True))
         text = render(prog)
-        conv = harness.convert(text, initialize_vars=case.get("init", False))
+        conv = harness.convert(text, initialize_vars=case.get("init", False), default_str_storage=case.get("storage", 32))
         if not conv["ok"]:
             obs["nontrivial"] = False
             obs["counters"]["refused" if conv["documented"] else "internal_error"] = 1
@@ -158,6 +160,21 @@ def run_case(case):
                         obs["viols"].append({"sig": "C09/wrong-class-target/" + ("array" if st.lv[2] else "scalar"),
                                              "detail": dict(detail, target=st.lv[1], value=st.e[:2])})
                         break
+        if r is not None:
+            # one identifier, one kind: never declared both with and without dimensions, never declared as a scalar
+            # and used with subscripts (or the reverse)
+            kinds = {}
+            for name, dims, ty, kind, idx in inf.decls:
+                if name in all4:
+                    kinds.setdefault(name, set()).add("array" if dims else "scalar")
+            for name, idx, nsub, fld in inf.uses:
+                if name in all4 and fld is None:
+                    kinds.setdefault(name, set()).add("array" if nsub else "scalar")
+            both = sorted(nm2 for nm2, ks in kinds.items() if len(ks) > 1)
+            obs["counters"]["kind_checks"] = len(kinds)
+            if both:
+                obs["viols"].append({"sig": "C09/kind-collision/" + ("array-identifier" if both[0].startswith("arr_") else "scalar-identifier"),
+                                     "detail": dict(detail, identifiers=both)})
         clash = {i for i in user if i.lower() in GENERATED or i.lower().startswith("tmp_")}
         if clash:
             obs["viols"].append({"sig": "C09/collides-with-generated", "detail": dict(detail, clash=sorted(clash))})
@@ -214,9 +231,11 @@ def cases(tier, seed):
         yield {"kind": "name", "name": nm, "init": i % 2 == 0, "sample": i % 300 == 5}
         masks = [1 + (i * 7 + seed) % 14, 1 + (i * 3 + 5 + seed) % 14] if tier == "quick" else range(1, 15)
         for m in masks:
-            yield {"kind": "name", "name": nm, "mask": m, "init": (i + m) % 2 == 1}
+            yield {"kind": "name", "name": nm, "mask": m, "init": (i + m) % 2 == 1, "dim": (i + m) % 3 != 0,
+                   "storage": [32, 80, 16][(i * 5 + m) % 7 % 3]}
             if tier != "quick":
-                yield {"kind": "name", "name": nm, "mask": m, "init": (i + m) % 2 == 0}
+                yield {"kind": "name", "name": nm, "mask": m, "init": (i + m) % 2 == 0, "dim": (i + m) % 3 == 0,
+                       "storage": [80, 16, 32][(i * 5 + m) % 7 % 3]}
     for nm in sorted(B09_RESERVED2):
         # longer spellings of the reserved two-letter names are the same Color BASIC variable
         for tail in ("X", "9", "XY"):
